@@ -64,6 +64,23 @@ def main():
                                "expected_bag": sorted([list(k), v] for k, v in exp.items()),
                                "observed_bag": sorted([list(k), v] for k, v in got.items()), "problems": problems},
                               note="number of results differs from the number of satisfying assignments")
+    # domains of VALUES (EQLScalar.tla): integers with colliding hashes and the falsy 0, value objects with equal twins; each
+    # query object is evaluated three times and every evaluation must give exactly one row per satisfying assignment
+    sc = []
+    for cfg in ("EQLScalar_gen_int.cfg", "EQLScalar_gen_obj.cfg"):
+        sc += [j for j in ctx.run_tlc("EQLScalar", cfg, expect="ok").json_lines() if isinstance(j, dict) and "cond" in j]
+    if len(sc) != 160:
+        raise MachineryError(f"EQLScalar_gen: expected 160 conditions, got {len(sc)}")
+    for c, r in zip(sc, replay("scalar", sc)):
+        for cs, o in zip(c["cases"], r["cases"]):
+            ctx.replayed += 1
+            exp = sorted(list(x) for x in cs["exp"])
+            key = ["scalar", c["mode"], c["cond"], cs["dx"], cs["dy"]]
+            ctx.case(key, bool(exp), sample={"family": "scalar", "mode": c["mode"], "cond": c["cond"], "expected_rows": exp[:6]})
+            if o.get("error") or any(e != exp for e in o["evals"]):
+                ctx.violation({"family": "scalar", "mode": c["mode"], "cond": c["cond"], "dx": cs["dx"], "dy": cs["dy"], "expected_rows": exp,
+                               "observed_per_evaluation": o.get("evals"), "error": o.get("error")},
+                              note="a domain of values (colliding hashes / equal twins / falsy 0): rows duplicated or dropped, on the first or a later evaluation")
     ctx.cov["fragment_conditions"] = len(cases)
     ctx.assumptions = ["domains are duplicate-free sequences", "one result per satisfying assignment of all the query's variables, "
                        "including variables that are not selected"]
